@@ -1,7 +1,9 @@
 /-
   Driver for C17.  stdin: `<entries> | <hex line>` per line (entries: `name:n:<hex value>` or
   `name:g:<hex value>`); stdout: `<model observation>\t<spec>`.
-  Observation: `ok <hex of the substituted text> C=<origin chains of its characters, run-length> T=<final table>`
+  Observation: `ok <hex of the substituted text> C=<origin chains of its characters, run-length>
+  B=<is_after_blank_ending_alias at every index, run-length> T=<final table>
+  X=<exit status : hex of standard output, of every executed alias / unalias command>`
   or `syntax-error`.
 -/
 import YashModel.Common.Proto
@@ -53,15 +55,98 @@ def rle : List (List String) → List (Nat × List String)
 def showOrigins (o : List (List String)) : String :=
   if o.isEmpty then "-" else ",".intercalate ((rle o).map fun (n, ch) => s!"{n}x{showChain ch}")
 
-def observe (toks : Toks) (hd : Pending) (text : List Char) (origins : List (List String)) (T : Table) : String :=
+def rleB : List Bool → List (Nat × Bool)
+  | [] => []
+  | c :: t =>
+    match rleB t with
+    | (n, d) :: r => if c == d then (n + 1, d) :: r else (1, c) :: (n, d) :: r
+    | [] => [(1, c)]
+
+def showBits (o : List Bool) : String :=
+  if o.isEmpty then "-" else ",".intercalate ((rleB o).map fun (n, b) => s!"{n}x{if b then 1 else 0}")
+
+/-- `Lexer::is_after_blank_ending_alias(i)` for every index `i` of the final buffer: the model's walk (`afterBlank`)
+    over its own buffer; the blanks / comment left at the end of input have been skipped by the lexer (marked) -/
+def walkBits (s : MState) : List Bool :=
+  let rec go (before : List SChar) : List SChar → List Bool
+    | [] => []
+    | c :: t => afterBlank before (some c) :: go (c :: before) t
+  go [] (s.pre.reverse ++ markLc s.rest)
+
+/-- the `alias` / `unalias` commands `lstep` executes at this step (the same computation as inside `lstep`) -/
+def lstepCmds (l : LState) : List (List (List Char)) :=
+  match step l.T l.m with
+  | none => []
+  | some m' =>
+    if m'.subs != l.m.subs then [] else
+    let r := l.m.rest.drop (skipLen l.m.rest)
+    let tok := lexTok r
+    (trackTok l.m.st tok.kind (trans l.m.st tok.kind).sub (chars (r.take tok.len)) l.tr).2
+
+def hlstepCmds (l : HLState) : List (List (List Char)) :=
+  match hstep l.T l.h with
+  | none => []
+  | some h' =>
+    if h'.toks.length == l.h.toks.length then [] else
+    let r := l.h.rest.drop (skipLenC l.h.rest)
+    let tok := lexTokC r
+    (trackTok l.h.st tok.kind (trans l.h.st tok.kind).sub (r.take tok.len) l.tr).2
+
+/-- exit status and standard output of every command of a list, executed in order (`runCmd`) -/
+def runAll (T : Table) (cmds : List (List (List Char))) : List (Nat × List Char) :=
+  (cmds.foldl (fun (acc : Table × List (Nat × List Char)) ws =>
+    let r := runCmd acc.1 ws
+    (r.T, acc.2 ++ [(r.status, r.out)])) (T, [])).2
+
+/-- the commands of the last command line when the input ends without a newline (`LState.finalTable`) -/
+def finalCmds (tr : Track) (st : PState) : List (List (List Char)) :=
+  if tr.depth == 0 && !tr.cont && lineEndState st then (endItem st tr).pending.reverse else []
+
+def lrunX : Nat → LState → List (Nat × List Char) → List (Nat × List Char)
+  | 0, _, acc => acc
+  | f + 1, l, acc =>
+    match lstep l with
+    | none => acc ++ runAll l.T (finalCmds l.tr l.m.st)
+    | some l' => lrunX f l' (acc ++ runAll l.T (lstepCmds l))
+
+def hlrunX : Nat → HLState → List (Nat × List Char) → List (Nat × List Char)
+  | 0, _, acc => acc
+  | f + 1, l, acc =>
+    match hlstep l with
+    | none => acc ++ runAll l.T (finalCmds l.tr l.h.st)
+    | some l' => hlrunX f l' (acc ++ runAll l.T (hlstepCmds l))
+
+def showX (xs : List (Nat × List Char)) : String :=
+  if xs.isEmpty then "-" else ",".intercalate (xs.map fun (st, out) => s!"{st}:{encChars out}")
+
+def observe (toks : Toks) (hd : Pending) (text : List Char) (origins : List (List String)) (bits : List Bool)
+    (T : Table) (xs : List (Nat × List Char)) : String :=
   -- a here-document whose body was never read (no newline after it) is `MissingHereDocContent`
   if !validToks toks || !hd.isEmpty then "syntax-error"
-  else s!"ok {encChars text} C={showOrigins origins} T={showTable T}"
+  else s!"ok {encChars text} C={showOrigins origins} B={showBits bits} T={showTable T} X={showX xs}"
 
 /-- step budget of the line machine (the table may change, so `fuelFor` of the initial table is no bound) -/
 def lineFuel (T : Table) (cs : List Char) : Nat := fuelFor T cs + 20000
 
+/-- the code points for which `isBlank` holds, as maximal ranges `lo-hi` (hex), over ALL scalar values: compared with a
+    sweep of the real `yash_syntax::parser::lex::is_blank` (so the `White_Space` table typed into the model and into
+    the extractor is checked against Rust's `char::is_whitespace` itself on every run) -/
+def blankRanges : String := Id.run do
+  let mut out : Array String := #[]
+  let mut start : Option Nat := none
+  for n in [0:0x110000] do
+    let b := (0xD800 ≤ n && n ≤ 0xDFFF) == false && isBlank (Char.ofNat n)
+    match start, b with
+    | none, true => start := some n
+    | some lo, false =>
+      out := out.push s!"{String.ofList (Nat.toDigits 16 lo)}-{String.ofList (Nat.toDigits 16 (n - 1))}"
+      start := none
+    | _, _ => pure ()
+  if let some lo := start then out := out.push s!"{String.ofList (Nat.toDigits 16 lo)}-10ffff"
+  return ",".intercalate out.toList
+
 def runLine (line : String) : String :=
+  if line.trimAscii.toString == "blank-sweep" then s!"blank {blankRanges}\t-" else
   match parseCase line with
   | none => "bad-case\t-"
   | some (T, cs) =>
@@ -72,8 +157,11 @@ def runLine (line : String) : String :=
     let hl := hc.l
     -- the certificate of `line_model_eq_spec_checked`: model and by-hand machine choose the same alias at every step
     if !lagreeB (lineFuel T cs) { T := T, m := init cs } { T := T, h := { rest := cs } } then
-      observe l.m.toks.reverse l.m.hd l.m.text l.m.origins l.finalTable ++ "\t=LAGREE-FAILED" else
-    observe l.m.toks.reverse l.m.hd l.m.text l.m.origins l.finalTable ++ "\t=" ++
-      observe hl.h.toks.reverse hl.h.hd (hl.h.out.reverse ++ hl.h.rest) hc.origins hl.finalTable
+      observe l.m.toks.reverse l.m.hd l.m.text l.m.origins (walkBits l.m) l.finalTable [] ++ "\t=LAGREE-FAILED" else
+    let hbits := hlrunB (lineFuel T cs) { T := T, h := { rest := cs } } []
+    let xs := lrunX (lineFuel T cs) { T := T, m := init cs } []
+    let hxs := hlrunX (lineFuel T cs) { T := T, h := { rest := cs } } []
+    observe l.m.toks.reverse l.m.hd l.m.text l.m.origins (walkBits l.m) l.finalTable xs ++ "\t=" ++
+      observe hl.h.toks.reverse hl.h.hd (hl.h.out.reverse ++ hl.h.rest) hc.origins hbits hl.finalTable hxs
 
 def main : IO Unit := YashModel.Proto.mainLoop runLine
